@@ -106,7 +106,9 @@ def floor(ctx):
                 break
     # encoder outputs are well formed; decoder attribution indices match the tokens
     sf.set_semantic_constraints(enc.relaxed_table())
-    for s in enc.corpus()[:: (25 if ctx.tier == 'quick' else 3)]:
+    long_ones = ['C' * 4097, '[Na+].' + 'C' * 5000 + 'O.[Cl-]', 'C' * 4096, 'CC(C)' * 1500, 'C.' * 3000 + 'C',
+                 'N' + 'C(F)' * 2500 + 'O', 'C1CC1' * 900, 'OC(=O)' + 'CC=C' * 1400]
+    for s in long_ones + enc.corpus()[:: (25 if ctx.tier == 'quick' else 3)]:
         try:
             sel = sf.encoder(s)
         except sf.EncoderError:
@@ -129,8 +131,15 @@ def floor(ctx):
                 for a in (am.attribution or []):
                     if not (0 <= a.index < len(syms)) or syms[a.index] != a.token:
                         bad = 'decoder consumed token %r at symbol index %d, tokens are %r' % (a.token, a.index, syms[:12])
+            # ... and it consumes ALL of them: every atom of the input is an atom of the output
+            n_in = len(re.findall(r'\[[^\]]*\]|Cl|Br|[BCNOSPFIbcnosp]', s))
+            n_out = len(re.findall(r'\[[^\]]*\]|Cl|Br|[BCNOSPFIbcnosp]', out))
+            if n_in != n_out and not bad:
+                bad = ('decoder did not consume every token of the encoder output: %d atoms in, %d atoms out (%d symbols)'
+                       % (n_in, n_out, len(syms)))
         if bad and len(viol) < 8:
-            viol.append({'clause': 'C14:encoder-output', 'input': {'smiles': s}, 'detail': bad})
+            viol.append({'clause': 'C14:encoder-output', 'input': {'smiles': s if len(s) < 300 else s[:100] + '...(%d chars)' % len(s)},
+                         'detail': bad[:600]})
     sf.set_semantic_constraints('default')
     return {'evaluations': ev, 'distinct_nontrivial': nt,
             'rule': 'every token sequence of length <= %d over 12 bracketed symbols with unusual inner text and single dots '
